@@ -1,6 +1,6 @@
 (* C05 - Fast matching keeps inliers, rejects outliers and weak peaks, never raises. *)
 From Coq Require Import QArith Qabs Qminmax List ZArith.
-From BF Require Import Model.Lattice Model.WLS Model.Match Proofs.LatticeP Proofs.MatchP Proofs.MatchExactP.
+From BF Require Import Model.Lattice Model.WLS Model.Match Proofs.LatticeP Proofs.MatchP Proofs.MatchExactP Proofs.WeakP.
 Open Scope Q_scope.
 
 (* a valid match has at least min_match selected peaks, as many indices as selected peaks (one optional index per peak),
@@ -52,3 +52,22 @@ Theorem C05_matching_respects_lattice_equality : forall tol2 z z' a a' b b' p, v
   match_point tol2 z a b p = match_point tol2 z' a' b' p.
 Proof. exact match_point_comp. Qed.
 Print Assumptions C05_matching_respects_lattice_equality.
+
+(* peaks below min_weight have no influence at all: changing their elevations (below min_weight) changes nothing in the result *)
+Theorem C05_weak_peaks_have_no_influence : forall tol2 mw mm zero a b pts pts', Forall2 (weak_eq mw) pts pts' ->
+  fastmatch tol2 mw mm zero a b pts = fastmatch tol2 mw mm zero a b pts'.
+Proof. exact fastmatch_ignores_weak_weights. Qed.
+Print Assumptions C05_weak_peaks_have_no_influence.
+
+(* float elevations: a NaN elevation behaves as any weight below min_weight, and is never selected *)
+Theorem C05_nan_elevation_is_weak : forall tol2 mw mm zero a b (pts : list (felev * vec)) (w : Q), w < mw ->
+  fastmatch_f tol2 mw mm zero a b pts =
+  fastmatch tol2 mw mm zero a b (map (fun ep : felev * vec => {| k_w := felev_as mw w (fst ep); k_p := snd ep |}) pts).
+Proof. exact fastmatch_f_nan_is_weak. Qed.
+Print Assumptions C05_nan_elevation_is_weak.
+
+Theorem C05_nan_elevation_never_selected : forall tol2 mw mm zero a b pts m z2 a2 b2,
+  fastmatch_f tol2 mw mm zero a b pts = Valid m z2 a2 b2 ->
+  forall k o p, nth_error m k = Some (Some o) -> nth_error pts k = Some p -> exists q, fst p = EVal q /\ mw <= q.
+Proof. exact fastmatch_f_nan_never_selected. Qed.
+Print Assumptions C05_nan_elevation_never_selected.
